@@ -129,4 +129,58 @@ example : ((okOf (parseArgs [] [b!"--max-blob-size", b!"10"])).bind (exportCmd {
 example : ((okOf (parseArgs [] [b!"--max-blob-size", b!"10", b!"--target", b!"../other"])).bind (exportCmd {})).map
     (fun a => a.contains b!"--no-data") = some false := by decide +kernel
 
+/-! ### the whole way: command line → options → validation → exporter -/
+
+theorem validCli_no_data_excludes_rules (o : CliOpts) (h : validCli o = true) (hr : o.replaceText.isSome = true) :
+    o.noData = false := by
+  unfold validCli at h
+  simp only [Bool.and_eq_true, Bool.not_eq_true', Bool.and_eq_false_iff] at h
+  obtain ⟨⟨⟨⟨_, _⟩, h3⟩, _⟩, _⟩ := h
+  rcases h3 with h3 | h3
+  · exact h3
+  · rw [hr] at h3; cases h3
+
+/-- **For every command line that reaches the filter with a `--replace-text` file, the exporter is started without
+    `--no-data`** — whatever else was typed, in whatever order (the user's own ref selection and source spelling aside:
+    they are copied onto the exporter's line as typed). -/
+theorem filtering_run_with_rules_exports_blob_data (c : Caps) (bad argv : List Bytes) (o : CliOpts) (args : List Bytes)
+    (_hp : parseArgs bad argv = .ok o) (hd : dispatch o = .filter) (hr : o.replaceText.isSome = true)
+    (hx : exportCmd c o = some args) (hov : o.feOverride = none)
+    (hrefs : b!"--no-data" ∉ o.refs) (hsrc : o.source ≠ b!"--no-data") : b!"--no-data" ∉ args := by
+  have hv : validCli o = true := by
+    unfold dispatch at hd
+    split at hd
+    · cases hd
+    · split at hd
+      · cases hd
+      · split at hd
+        · assumption
+        · cases hd
+  exact content_rules_get_blob_data c o args hx hov hr (validCli_no_data_excludes_rules o hv hr) hrefs hsrc
+
+/-- `--detect-secrets` and `--analyze` never reach the filter: whatever filtering options stand next to them -/
+theorem scan_modes_do_not_filter (o : CliOpts) (h : o.detectSecrets = true ∨ o.analyze = true) : dispatch o ≠ .filter := by
+  unfold dispatch
+  rcases h with h | h
+  · simp [h]
+  · cases hd : o.detectSecrets <;> simp [h]
+
+example : ((okOf (parseArgs [] [b!"--no-data", b!"--replace-text", b!"r"])).map dispatch) = some Dispatch.refused := by decide +kernel
+example : ((okOf (parseArgs [] [b!"--replace-text", b!"r", b!"--max-blob-size", b!"0"])).map dispatch) = some Dispatch.refused := by decide +kernel
+example : ((okOf (parseArgs [] [b!"--replace-text", b!"r", b!"--analyze"])).map dispatch) = some Dispatch.analyze := by decide +kernel
+example : ((okOf (parseArgs [] [b!"--replace-text", b!"r", b!"--path", b!"src"])).map dispatch) = some Dispatch.filter := by decide +kernel
+
+/-- **A run that is not partial exports every ref**: for every command line, if the run is not partial the exporter is
+    started with `--all` (so no ref keeps rooting pre-rewrite history, C07/C03). -/
+theorem full_run_exports_all_refs (c : Caps) (bad argv : List Bytes) (o : CliOpts) (args : List Bytes)
+    (hp : parseArgs bad argv = .ok o) (hfull : o.partialRun = false) (hov : o.feOverride = none)
+    (hx : exportCmd c o = some args) : b!"--all" ∈ args := by
+  have hrefs : o.refs = [b!"--all"] := by
+    by_cases h : o.refs = [b!"--all"]
+    · exact h
+    · have := selected_refs_mean_partial bad argv o hp h
+      rw [hfull] at this; cases this
+  obtain ⟨re, mt, _, _, rfl⟩ := mem_exportCmd c o args hx hov
+  simp [hrefs]
+
 end Frrs.Pipes
